@@ -69,7 +69,47 @@ uint32_t x_verif_oracle_dec2double(uint64_t man, uint32_t exp10u, uint64_t bits)
   if (diff == H && (m & 1) != 0) return 0;
   return 1;
 }
+/* exact oracle for Schubfach: v = c*2^q, interval [ (4c-2+irr)*2^(q-2), (4c+2)*2^(q-2) ], decimal x = sig*10^exp.
+   Everything is scaled to integers by 2^max(0,2-q) and 10^max(0,-E) where E is the SMALLER of the two candidate decimal
+   exponents (job parameters 4 and 5), so all powers are constants. */
+static ll_big ll_pow10(int n){ ll_big r = 1; for (int i = 0; i < 400; i++) { if (i < n) r = r * 10; } return r; }
+uint32_t x_verif_oracle_shortest(uint64_t c, uint32_t qu, uint32_t irregular, uint64_t sig, uint32_t expu){
+  int q = (int)qu, e = (int)expu;
+  int e1 = (int)LL_PARAMS[4], e2 = (int)LL_PARAMS[5];          /* e1 <= e2 */
+  if (e != e1 && e != e2) return 0;
+  /* common scale: multiply everything by 2^S2 * 10^S10 with S2 = max(0, 2-q), S10 = max(0, -e1) */
+  int S2 = q < 2 ? 2 - q : 0, S10 = e1 < 0 ? -e1 : 0;
+  ll_big P10 = ll_pow10(S10);
+  ll_big two = 1; two = two << S2;
+  ll_big bscale = P10;                    /* binary side: value * 2^(q-2) * 2^S2 * 10^S10 */
+  if (q - 2 + S2 > 0) bscale = bscale << (q - 2 + S2);
+  ll_big lo = (ll_big)(4 * c - 2 + irregular) * bscale, mid = (ll_big)(4 * c) * bscale, hi = (ll_big)(4 * c + 2) * bscale;
+  /* decimal side: sig * 10^(e + S10) * 2^S2 */
+  ll_big unit1 = ll_pow10(e1 + S10) * two;           /* one unit of the last digit at exponent e1 */
+  ll_big unit2 = ll_pow10(e2 + S10) * two;
+  ll_big unit = (e == e1) ? unit1 : unit2;
+  ll_big x = (ll_big)sig * unit;
+  int even = (c & 1) == 0;
+  /* (a) inside the rounding interval */
+  if (even) { if (x < lo || x > hi) return 0; } else { if (x <= lo || x >= hi) return 0; }
+  /* (b) shortest: no multiple of 10*unit lies in the interval (other than x itself when sig ends in 0) */
+  ll_big u10 = unit * 10;
+  uint64_t t = sig / 10;
+  ll_big m0 = (ll_big)t * u10, m1 = m0 + u10;
+  int in0 = even ? (m0 >= lo && m0 <= hi) : (m0 > lo && m0 < hi);
+  int in1 = even ? (m1 >= lo && m1 <= hi) : (m1 > lo && m1 < hi);
+  if (sig %% 10 != 0) { if (in0 || in1) return 0; }
+  /* (c) closest at this exponent: neighbours that are also inside must not be strictly closer; on a tie the even digit wins */
+  ll_big d = x > mid ? x - mid : mid - x;
+  ll_big xm = x - unit, xp = x + unit;
+  int inm = even ? (xm >= lo && xm <= hi) : (xm > lo && xm < hi);
+  int inp = even ? (xp >= lo && xp <= hi) : (xp > lo && xp < hi);
+  if (inm) { ll_big dm = xm > mid ? xm - mid : mid - xm; if (dm < d || (dm == d && (sig & 1))) return 0; }
+  if (inp) { ll_big dp = xp > mid ? xp - mid : mid - xp; if (dp < d || (dp == d && (sig & 1))) return 0; }
+  return 1;
+}
 #else
+uint32_t x_verif_oracle_shortest(uint64_t c, uint32_t q, uint32_t irr, uint64_t sig, uint32_t e){ return 1; }
 uint32_t x_verif_oracle_dec2double(uint64_t man, uint32_t exp10u, uint64_t bits){ return 1; }  /* translator validation compares the kernel only */
 #endif
 uint64_t x_verif_concrete(uint64_t v){ return v; }
@@ -115,6 +155,7 @@ int verif_is_replay(void){ return 0; }
 void* verif_alloc_page_end(size_t n, size_t, size_t){ return malloc(n); }
 void verif_map_slack(const void*, size_t){}
 int verif_oracle_dec2double(uint64_t, int, uint64_t){ return 1; }
+int verif_oracle_shortest(uint64_t, int, int, uint64_t, int){ return 1; }
 void verif_check_independent(uint64_t, const char*){}
 void verif_check_independent_mem(const void*, size_t, const char*){}
 }
